@@ -76,6 +76,14 @@ def gen(ctx, n):
             add('tied_emb', {'V': r.randint(3, 7), 'd': r.randint(1, 3), 'n': r.randint(1, 3)}, mode=r.choice(['hooks', 'functorch']))
         if r.random() < 0.35 and cases[-1]['B'] > 0:
             cases[-1]['pre_B'] = cases[-1]['B'] + r.randint(1, 3)
+        if r.random() < 0.3 and cases[-1]['B'] > 0:
+            # an evaluation pass (eval mode, no_grad, no backward) on ANOTHER batch size before the training step; recurrent layers see it packed
+            cases[-1]['pre_eval_B'] = cases[-1]['B'] + r.randint(1, 3)
+    # a recurrent model evaluated on packed sequences, then trained on a padded batch of another size
+    for kind in ('lstm', 'gru'):
+        for red in ('mean', 'sum'):
+            cases.append({'tpl': 'rnn', 'a': {'kind': kind, 'D': 2, 'H': 3, 'layers': 1, 'bidir': False, 'bf': True, 'o': 2, 'packed': False, 'T': 3}, 'B': 3, 'mode': 'hooks',
+                          'red': red, 'seed': 4242, 'frozen': [], 'pre_eval_B': 5})
     return cases
 
 
